@@ -122,7 +122,7 @@ func (r *Run) Classify(path *Path, i int) GuardClass {
 				return GuardClass{Subject: "lookup:" + shortFuncName(f), Outcome: tern(val, "hit", "miss"), Failing: !val, Callee: f}
 			}
 			if ix, ok := ast.Unparen(rhs).(*ast.IndexExpr); ok && idx == 1 {
-				return GuardClass{Subject: "maplookup:" + p.Canon(fn, ix.X), Outcome: tern(val, "hit", "miss"), Failing: !val}
+				return GuardClass{Subject: "maplookup:" + p.Canon(fn, ix.X) + "[" + p.Canon(fn, ix.Index) + "]", Outcome: tern(val, "hit", "miss"), Failing: !val}
 			}
 			if f, _ := r.calleeOfExpr(fn, rhs); f != nil {
 				return GuardClass{Subject: "boolcall:" + shortFuncName(f), Outcome: tern(val, "true", "false"), Callee: f}
